@@ -845,7 +845,12 @@ func TestRAC_C08(t *testing.T) {
 	seen := map[string]bool{}
 	// scripts which touch the names the engine keeps its own settings under
 	settings := []string{"DEBUG = 0;", "OPTIMIZE = 0;", "DEBUG = \"x\"; return 1;", "OPTIMIZE = [1]; return OPTIMIZE;", "DEBUG = 1.5; return DEBUG;", "DEBUG = false; OPTIMIZE = false;", "return DEBUG;",
-		"function DEBUG() { return 1; } return DEBUG();", "foreach DEBUG in [1, 2] { } return 1;", "OPTIMIZE++; return 1;", "DEBUG += 1;", "local DEBUG;"}
+		"function DEBUG() { return 1; } return DEBUG();", "foreach DEBUG in [1, 2] { } return 1;", "OPTIMIZE++; return 1;", "DEBUG += 1;", "local DEBUG;",
+		// deep trees built without nesting in the text: the tree is walked recursively after parsing (an
+		// overflowing stack is fatal, the harness then ends with "did not complete")
+		"return 1" + strings.Repeat("+a", 40000) + ";", "return 1" + strings.Repeat(" || a == 1", 1000000) + ";", "return L" + strings.Repeat("[0]", 500000) + ";",
+		"return id" + strings.Repeat("(1)", 500000) + ";", "return a" + strings.Repeat(".len()", 300000) + ";", "return " + strings.Repeat("!", 500000) + "1;",
+		"return " + strings.Repeat("[", 300000) + "1" + strings.Repeat("]", 300000) + ";", strings.Repeat("a = ", 300000) + "1;", "if (a) { return 1; }" + strings.Repeat(" else if (a) { return 1; }", 100000)}
 	for i := -len(settings); i < n; i++ {
 		var src string
 		switch {
